@@ -23,9 +23,9 @@ FIXED_CODE = {"default": 3, "minimal": 0}
 
 def space(tier):
     if tier == "thorough":
-        docs = [spaces.block_space("rule", 3), spaces.block_space("core", 3), spaces.block_space("wide", 2)]
+        docs = [spaces.block_space("rule", 3), spaces.block_space("core", 3), spaces.block_space("wide", 2), spaces.mix_space(tier)]
     else:
-        docs = [spaces.block_space("rule", 2), spaces.block_space("core", 3), spaces.block_space("wide", 2)]
+        docs = [spaces.block_space("rule", 2), spaces.block_space("core", 3), spaces.block_space("wide", 2), spaces.mix_space(tier)]
     return spaces.UnionSpace(f"fixreport-{tier}", [spaces.ConfigDocSpace(d, SCHEMES) for d in docs])
 
 
